@@ -118,8 +118,11 @@ def _forward_reference_arguments(F, G, bb, t, lo, pre, new_blocks):
         pl = rv["pl"]
         pr = pl.get("p", [])
         if not pr:
-            return pl["l"], [defs[0]]
+            return (pl["l"], False), [defs[0]]
         if pr == ["deref"]:
+            if 1 <= pl["l"] <= F.get("arg_count", 0) and str(F["locals"][pl["l"]]["ty"]).startswith("&"):
+                # a re-borrow of what a reference parameter of the caller points to: `helper(&mut *file)` / `helper(file)`
+                return (pl["l"], True), [defs[0]]
             r = resolve(pl["l"], seen | {l})
             if r is None:
                 return None
@@ -131,7 +134,7 @@ def _forward_reference_arguments(F, G, bb, t, lo, pre, new_blocks):
         r = resolve(a["pl"]["l"], set())
         if r is None:
             continue
-        target, chain = r
+        (target, through_param), chain = r
         param = lo + 1 + i
         # the parameter must only ever be dereferenced in the callee (never copied, re-borrowed whole, passed on or compared)
         ok = True
@@ -156,7 +159,7 @@ def _forward_reference_arguments(F, G, bb, t, lo, pre, new_blocks):
             if isinstance(x, dict):
                 if x.get("l") == param and x.get("p") and x["p"][0] == "deref":
                     x["l"] = target
-                    x["p"] = x["p"][1:]
+                    x["p"] = (["deref"] if through_param else []) + x["p"][1:]
                     if not x["p"]:
                         del x["p"]
                 for v in x.values():
